@@ -6,7 +6,7 @@
 
 const char *CHK_RULE = "one case = one history with hold-heavy handlers (sweep: handler kind x emissions before HOLD x release path x status x back-pressure, with an event "
                        "triggered during the hold; random: generated table/lines, releases by API and by event handlers at random points); non-trivial = at least one hold was "
-                       "entered; distinct by (holds entered, holds with input queued, release paths used, table size, input length)";
+                       "entered; distinct by (holds entered, holds with input queued, release paths used, table size, input bytes, schedule kind)";
 static char mode[120];
 void chk_describe(FILE *f) { fprintf(f, "%s\n", mode); eng_describe(f); }
 
@@ -75,7 +75,7 @@ out:
 
 struct case_budget chk_budget(const char *tier)
 {
-        struct case_budget b = { N_SWEEP, strcmp(tier, "thorough") == 0 ? 1200000 : 60000 };
+        struct case_budget b = { N_SWEEP, strcmp(tier, "thorough") == 0 ? 8000000 : 200000 };
         return b;
 }
 void chk_run_case(uint64_t seed, long c, bool is_sweep)
@@ -96,7 +96,7 @@ void chk_run_case(uint64_t seed, long c, bool is_sweep)
         if (nh > 0) {
                 uint64_t h = hash_u64((uint64_t)nh, 3); h = hash_u64((uint64_t)(ctr_get("holds_with_input_queued") - hq0), h);
                 h = hash_u64((uint64_t)((ctr_get("releases_by_api") - ra0 ? 1 : 0) + (ctr_get("releases_by_event_handler") - re0 ? 2 : 0)), h);
-                h = hash_u64(W.ncmds, h); h = hash_u64(INLEN, h);
+                h = hash_u64(W.ncmds, h); h = hash_bytes(INB, INLEN, h); h = hash_u64((uint64_t)(RS.mode * 2 + WS.mode), h);
                 nontrivial(h);
                 if (sample_wanted()) { char b[300]; fmt_bytes(b, sizeof b, INB, INLEN > 100 ? 100 : INLEN); sample_printf("%zu commands, input \"%s\": %ld holds entered (%ld with input queued), released by api %lld / by event handler %lld", W.ncmds, b, nh, (long)(ctr_get("holds_with_input_queued") - hq0), ctr_get("releases_by_api") - ra0, ctr_get("releases_by_event_handler") - re0); }
         }
